@@ -535,6 +535,8 @@ def step2(line):
                 k, v = kv.split('=')
                 fields[k] = None if v == 'N' else unhx(v).decode('utf-8')
         return hx(M.TagBlock.create(**fields))
+    if cmd == 'reencode':
+        return show_bits(getattr(M, p[1]).from_bitarray(parse_bits(p[2])).to_bitarray())
     if cmd == 'create':
         return canon_msg(getattr(M, p[1]).create(**parse_kw(p[2])))
     if cmd == 'tobits':
